@@ -206,7 +206,10 @@ func genBatch(t *rapid.T) Case {
 				// what goes out is valid JSON either way (the result, or an error)
 				raw := rapid.SampledFrom([]string{`{"a":`, `1 2`, `[1,2`, ``, ` `, `{"a":1}`, " [1, 2]\n", `"x<y"`, `nul`, `{"a":1}}`, `null`, `{"a":{"b":[]}} `}).Draw(t, "raw")
 				rb, _ := json.Marshal(raw)
-				ms = append(ms, fmt.Sprintf(`{"jsonrpc":"2.0","id":%d,"method":"raw","params":{"k":%d,"raw":%s}}`, 600+i*10+j, 600000+i*10+j, rb))
+				// (as a notification: silence either way - a result that cannot be
+				// encoded is the server's own business, not a reason to answer)
+				idp := rapid.SampledFrom([]string{fmt.Sprintf(`"id":%d,`, 600+i*10+j), fmt.Sprintf(`"id":%d,`, 600+i*10+j), ``, `"id":null,`}).Draw(t, "rawid")
+				ms = append(ms, fmt.Sprintf(`{"jsonrpc":"2.0",%s"method":"raw","params":{"k":%d,"raw":%s}}`, idp, 600000+i*10+j, rb))
 			} else {
 				ms = append(ms, gen.NthMember(rapid.IntRange(0, gen.ProductSize()-1).Draw(t, "m")))
 			}
